@@ -794,6 +794,7 @@ fn stream_expectations(case: &StreamCase, tex: bool, index: &[(usize, usize)]) -
 fn gen_streams(rng: &mut Rng, with_faults: bool) -> StreamCase {
     let vocab = [
         "a", "b c", "{d", "e}", "", "f%x", "  g  ", "{", "}", "h}i", "j{k}l", "m!n", " ", "{o{p}", "q}}r",
+        "s}t{u", "}{", "v}{w}x", "{y}}{z", "a}b{c{d", "e{f}g}h{", "}}", "{{", "i }j{ k", "%}{", "l!}{",
     ];
     let nfiles = 1 + rng.below(4);
     let mut files = vec![];
@@ -815,7 +816,11 @@ fn gen_streams(rng: &mut Rng, with_faults: bool) -> StreamCase {
     }
     let mut terminal = vec![];
     for i in 0..rng.below(8) {
-        terminal.push(format!("{}{}", ["t", "u v", "{w", "x}", "y}z", ""][rng.below(6)], i));
+        terminal.push(format!(
+            "{}{}",
+            ["t", "u v", "{w", "x}", "y}z", "", "a}b{c", "}{", "{d}e}f{"][rng.below(9)],
+            i
+        ));
     }
     let nstreams = [0u8, 1, 15, 7, 3];
     let ns = 1 + rng.below(nstreams.len());
